@@ -460,6 +460,11 @@ func (j *mulJudge) genCase(r *gen.RNG, i int) (ref.Bits, ref.Bits) {
 	}
 	x := r.Finite()
 	y := r.Finite()
+	if xn := ref.Decode(x); r.Bool() && !xn.IsZero() {
+		// the second operand derived from part of the first one's coefficient (low/high word, 10^19 chunk ...)
+		y = r.WordImageOperand(sy, xn.Coef, r.Range(-60, 60))
+		j.sh.Cell("gen/word-image-operand")
+	}
 	return x, y
 }
 
